@@ -100,6 +100,10 @@ func (r *resolver) module(y *Module) error {
 				if err != nil {
 					return fmt.Errorf("%s - %s", i.moduleName, err)
 				}
+				// also known by the name it was asked for, which need not be the name the text
+				// gives itself: without this a module found under another name that imports
+				// the same name again is loaded without end
+				r.loadedModules[i.moduleName] = i.module
 				// recurse
 				if err = r.module(i.module); err != nil {
 					return err
@@ -345,8 +349,13 @@ func (r *resolver) applyDeviation(y *Module, d *Deviation) error {
 		case *Notification:
 			notifs := target.Parent().(HasNotifications).Notifications()
 			delete(notifs, target.Ident())
+		case *ChoiceCase:
+			delete(target.Parent().(*Choice).cases, target.Ident())
 		default:
-			hasDDefs := target.Parent().(HasDataDefinitions)
+			hasDDefs, valid := target.Parent().(HasDataDefinitions)
+			if !valid {
+				return fmt.Errorf("%s - cannot remove %s from %T", SchemaPath(d), target.Ident(), target.Parent())
+			}
 			existing := hasDDefs.popDataDefinitions()
 			for _, candidate := range existing {
 				if candidate != target {
@@ -436,6 +445,9 @@ func (r *resolver) applyDeviation(y *Module, d *Deviation) error {
 		}
 		for _, must := range d.Add.musts {
 			target.(HasMusts).addMust(must)
+		}
+		if _, isAny := target.(*Any); isAny && (d.Add.units != "" || d.Add.HasDefault()) {
+			return fmt.Errorf("%s - anydata and anyxml have neither units nor default", SchemaPath(d))
 		}
 		if d.Add.units != "" {
 			if hasType.Units() != "" {
